@@ -166,7 +166,7 @@ class ScanProperty:
     COQ_TARGETS = []
     ASSUMPTIONS = []
     N = {'quick': 300, 'thorough': 4000}
-    CAPSTONE = {'quick': 40, 'thorough': 400}
+    CAPSTONE = None      # set by the properties whose theorems include the capstone (pipeline model vs compiled automata)
 
     def gen_case(self, rng, i):
         raise NotImplementedError
